@@ -227,6 +227,8 @@ class Heap:
     def alloc(self, cls, fields=None, name=None):
         self.n += 1
         name = name or '@%s%d' % (cls[:1].lower(), self.n)
+        if name in self.objs:
+            name = '%s#%d' % (name, self.n)          # a second object of that name (two model lists in one heap): never the same object
         self.objs[name] = dict({'__class__': cls}, **(fields or {}))
         return Ref(name)
 
@@ -1503,6 +1505,8 @@ class Interp:
             return [(i, v) for i, v in enumerate(self.seq(args[0]), st_)]          # enumerate(xs, start)
         if isinstance(fn, ast.Name) and fn.id == 'enumerate' and len(args) == 1 and isinstance(args[0], (str, PyIter)):
             return [(i, v) for i, v in enumerate(self.seq(args[0]))]
+        if isinstance(fn, ast.Name) and fn.id == 'id' and 'id' not in env and len(args) == 1 and not kwargs and isinstance(args[0], Ref):
+            return ('id', args[0].name)          # the identity of a heap object: a token that equals itself only
         if isinstance(fn, ast.Name) and fn.id == 'len' and len(args) == 1 and isinstance(args[0], tuple) and args[0] and args[0][0] == 'linesof':
             return ('linecount', args[0][1])
         if isinstance(fn, ast.Name) and fn.id == 'len' and len(args) == 1 and isinstance(args[0], (set, frozenset, dict, str, bytes)):
@@ -2098,7 +2102,10 @@ class Interp:
                     and all(isinstance(a_, (str, int, bytes)) or (isinstance(a_, SStr) and a_.concrete() is not None) for a_ in args):
                 # decided text under a heap that lets CPython's regex engine decide: the Match object itself (groups are read later)
                 import re as _re
-                return getattr(_re.compile(rxv[2], rxv[3]), meth)(*[a_.concrete() if isinstance(a_, SStr) else a_ for a_ in args], **kwargs)
+                try:
+                    return getattr(_re.compile(rxv[2], rxv[3]), meth)(*[a_.concrete() if isinstance(a_, SStr) else a_ for a_ in args], **kwargs)
+                except TypeError:
+                    raise Raised('TypeError', h.version, 0)          # (a text pattern on bytes, or the reverse)
             if meth in ('search', 'match', 'fullmatch') and args and isinstance(args[0], (str, SStr)):
                 ok = symstr.regex_test(rxv[2], rxv[3], meth, args[0])
                 return ('matchobj', rxv[1]) if ok else None
